@@ -92,7 +92,15 @@ structure Mode where
   /-- pandas copy-on-write (always on from pandas 3): nothing written through a shallow copy reaches the original.
       Without it a column *added* to the view still stays local, but values overwritten in place are shared. -/
   cow : Bool
-  /-- `_start`: the objects nested in cells of that frame are deep-copied as well -/
+  /-- `_start`: the objects nested in cells of that frame are deep-copied as well.  Precisely what `_own_frame` does (and what
+      the source flag `managerCellsCopied` recognises, text for text): for every column of dtype `object` that holds at least one
+      `list`, `dict` or `set` cell, every cell of that column is replaced by its `copy.deepcopy`.  So `N`, in every theorem
+      that uses this flag, is the state of the objects nested in cells **of columns that hold a list, dict or set cell** —
+      all that demeter's own loaders produce (the Deribit `asks` / `bids` lists of `[price, amount]`).  A column whose mutable
+      cells are all of other classes (tuples holding lists, numpy arrays, deques, user objects) is handed out uncopied: for
+      a frame with such a column the flag to read the theorems with is `cellsCopied := false`
+      (`C19_order_list_copy_partial` with its hypothesis `CellsIntact`; witness `C19_fails_when_nested_cells_are_shared`).
+      The harness measures the boundary on `_own_frame` itself on every run (`own_frame_probe`, one column per class). -/
   cellsCopied : Bool
   /-- deribit `get_new_order_list` decrements a deep copy of the order list it is given -/
   orderListCopied : Bool
@@ -331,6 +339,103 @@ def managerRunF {M C V N P O : Type} (env : Env M P) (md : Mode) (fm : FailMode)
 def specF {M C V N P O : Type} (cfg : M) (d : Data C V N P) (strats : List (FStrat M C V N P O)) : List (Option O) :=
   strats.map (fun s => if s.fails cfg d then none else some (s.run cfg d).2.2)
 
+/-! ### process-wide state
+
+Besides the objects it is handed, a backtest runs inside an interpreter process whose state outlives it: the decimal
+context (`getcontext()`: precision, rounding, traps, exponent range — per thread, and every backtest of a process runs
+on the same thread), class-level attributes (`Snapshot.market_status` was one dict shared by every `Snapshot` of the
+process until it became a per-instance field), module globals, caches.  `G` is that state.  A backtest — the strategy
+together with the Actuator and the market code it drives — may read it (its behaviour is a function of the `G` it
+finds) and may leave it changed, also when it fails.
+
+Which backtests share a process: on the in-process path all of them, one after the other, in the caller's process
+(state `g` when `run()` is called, and whatever the last backtest leaves stays behind for the caller); on the forked
+path every worker starts as a copy of the caller's process (`g`) and keeps its own state across the tasks it executes;
+a spawned worker (Windows) starts from the state of a fresh interpreter that has imported the caller's modules
+(`gSpawn`) and likewise keeps it across its tasks. -/
+
+/-- a backtest inside a process: what it does given the process state it finds, and the process state it leaves -/
+structure GStrat (G M C V N P O : Type) where
+  /-- the backtest as a transformer of the objects it is handed, given the process state at its start -/
+  strat : G → FStrat M C V N P O
+  /-- the process state when the backtest is over (finished or failed), given the state found, the attached markets and the data -/
+  leaves : G → M → Data C V N P → G
+
+/-- a backtest that neither reads nor writes the process state -/
+def FStrat.stateless {G M C V N P O : Type} (s : FStrat M C V N P O) : GStrat G M C V N P O :=
+  { strat := fun _ => s, leaves := fun g _ _ => g }
+
+/-- the part of the process state the framework itself writes: `Actuator.__get_snapshot` stores the status of every market
+    into `snapshot.market_status` on every bar.  If that dict is a class-level default of `Snapshot` it is one object for
+    the whole process and what the backtest's last bar published stays behind (`perInstance = false`; `publish` = the
+    state with those statuses in it); as a per-instance field it dies with the snapshot.  The flag is read from the
+    source (`Gen.snapshotHoldsNoSharedObject`). -/
+def GStrat.underActuator {G M C V N P O : Type} (perInstance : Bool) (publish : G → M → Data C V N P → G)
+    (s : GStrat G M C V N P O) : GStrat G M C V N P O :=
+  { strat := s.strat, leaves := fun g m d => if perInstance then s.leaves g m d else publish (s.leaves g m d) m d }
+
+/-- `_start` inside a process whose state is `g`: the state the process is left in, then what `startF` says -/
+def startG {G M C V N P O : Type} (env : Env M P) (md : Mode) (s : GStrat G M C V N P O) (g : G) (cfg : M) (d : Data C V N P) :
+    G × M × Data C V N P × Option O :=
+  (s.leaves g (attached env md cfg) d, startF env md (s.strat g) cfg d)
+
+/-- sequential path inside one process: the process state is threaded through the backtests like the configuration and the data -/
+def runSeqG {G M C V N P O : Type} (env : Env M P) (md : Mode) (catches : Bool) :
+    G → M → Data C V N P → List (GStrat G M C V N P O) → List (Option O)
+  | _, _, _, [] => []
+  | g, cfg, d, s :: rest =>
+    let r := startG env md s g cfg d
+    if (s.strat g).fails (attached env md cfg) d && !catches then none :: rest.map (fun _ => none)
+    else r.2.2.2 :: runSeqG env md catches r.1 r.2.1 r.2.2.1 rest
+
+/-- the state the caller's process is left in by the in-process loop (all backtests started: the handler is in place) -/
+def seqLeaves {G M C V N P O : Type} (env : Env M P) (md : Mode) :
+    G → M → Data C V N P → List (GStrat G M C V N P O) → G
+  | g, _, _, [] => g
+  | g, cfg, d, s :: rest =>
+    let r := startG env md s g cfg d
+    seqLeaves env md r.1 r.2.1 r.2.2.1 rest
+
+/-- forked pool: worker `k` owns a process state and the inherited data (`w k`), both alive across the tasks it executes -/
+def runPoolG {G M C V N P O : Type} (env : Env M P) (md : Mode) (cfg : M) (assign : Nat → Nat) :
+    (Nat → G × Data C V N P) → Nat → List (GStrat G M C V N P O) → List (Option O)
+  | _, _, [] => []
+  | w, i, s :: rest =>
+    let k := assign i
+    let r := startG env md s (w k).1 cfg (w k).2
+    r.2.2.2 :: runPoolG env md cfg assign (fun j => if j = k then (r.1, r.2.2.1) else w j) (i + 1) rest
+
+/-- pool whose tasks get the data as an argument: the data is private per task, the worker's process state is not -/
+def runPoolArgsG {G M C V N P O : Type} (env : Env M P) (md : Mode) (cfg : M) (d : Data C V N P) (assign : Nat → Nat) :
+    (Nat → G) → Nat → List (GStrat G M C V N P O) → List (Option O)
+  | _, _, [] => []
+  | wg, i, s :: rest =>
+    let k := assign i
+    let r := startG env md s (wg k) cfg d
+    r.2.2.2 :: runPoolArgsG env md cfg d assign (fun j => if j = k then r.1 else wg j) (i + 1) rest
+
+/-- `BacktestManager.run()` called in a process whose state is `g`; `gSpawn` = state of a freshly spawned worker -/
+def managerRunG {G M C V N P O : Type} (env : Env M P) (md : Mode) (fm : FailMode) (threads cpu : Nat) (windows ctxSet : Bool)
+    (assign : Nat → Nat) (finished : Nat → Bool) (g gSpawn : G) (cfg : Option M) (d : Option (Data C V N P))
+    (strats : List (GStrat G M C V N P O)) : FOutcome O :=
+  match cfg, d with
+  | none, _ => .raised "RuntimeError"
+  | some _, none => .raised "RuntimeError"
+  | some cfg, some d =>
+    if strats.length < 1 then .done []
+    else if strats.length = 1 ∨ threads = 1 then seqOutcome fm.catchesInProcess (runSeqG env md fm.catchesInProcess g cfg d strats)
+    else if threads > cpu then .raised "TypeError"
+    else if windows then
+      if threads = 0 then .raised "ValueError"
+      else poolOutcome fm.argsPoolWaits finished (runPoolArgsG env md cfg d assign (fun _ => gSpawn) 0 strats)
+    else if ctxSet then .raised "RuntimeError"
+    else if threads = 0 then .raised "ValueError"
+    else poolOutcome fm.forkPoolWaits finished (runPoolG env md cfg assign (fun _ => (g, d)) 0 strats)
+
+/-- the specification: every strategy alone in a process of its own whose state is `g` -/
+def specG {G M C V N P O : Type} (g : G) (cfg : M) (d : Data C V N P) (strats : List (GStrat G M C V N P O)) : List (Option O) :=
+  specF cfg d (strats.map (fun s => s.strat g))
+
 /-! ### the projection the driver runs: what does each strategy find in the objects it is handed -/
 
 /-- market objects: positions on the first / second market, are the references between the markets intact -/
@@ -369,5 +474,15 @@ def probeEnv (priceDec linked : Bool) : Env PM (Nat × Bool) where
     objects it was handed — a position on the first market, an added column (`ifDisturbed`) -/
 def probeFStrat (e : Effect) (always : Bool) (ifDisturbed : Bool := false) : FStrat PM Nat Nat Nat (Nat × Bool) (PM × PData) :=
   { probeStrat e with fails := fun m d => always || (ifDisturbed && (m.1 != 0 || d.cols != 0)) }
+
+/-- a scripted backtest inside a process whose state is a counter (how often somebody changed the decimal context, how many
+    statuses were published into a class-level dict): it adds `gWrite` to it and observes, besides what `probeStrat` observes,
+    the process state it *found* -/
+def probeGStrat (e : Effect) (always : Bool) (gWrite : Nat) : GStrat Nat PM Nat Nat Nat (Nat × Bool) ((PM × PData) × Nat) where
+  strat g :=
+    { run := fun m d => let r := (probeStrat e).run m d; (r.1, r.2.1, (r.2.2, g)),
+      fills := (probeStrat e).fills,
+      fails := fun _ _ => always }
+  leaves g _ _ := g + gWrite
 
 end Demeter.Manager
